@@ -125,7 +125,7 @@ def second_pid_scenario(ctx, trace, run_id, second_event="started"):
         cls = [a, b]
         for cl, pid, evn in ((a, 1, "started"), (b, 2, "started"), (a, 3, second_event)):
             cl.send_text(announce_msg(1, pid, evn, 1, [], []))
-            got = settle([c for c in cls if not c.closed], 0.3)
+            got = settle([c for c in cls if not c.closed], 0.3, sender=cl, max_wait=4.0)
             frames = [abstract_frame(m, n) for n, m in got]
             mine = [f for f in frames if f["to"][0] == cl.name]
             trace.append({"ev": "announce", "c": [cl.name, 0], "fam": 4, "h": 1, "pid": pid, "event": evn,
